@@ -1,5 +1,7 @@
 import RsslVerif.Lemmas.ConstEvalNoPanic
 import RsslVerif.Gen.EvalSites
+import RsslVerif.Lemmas.ConstEvalFloatRound
+import RsslVerif.Lemmas.ConstPosEnum
 /-!
 # C13 — compile-time constant evaluation matches run-time semantics
 
@@ -114,6 +116,94 @@ theorem literal_neg_exact (x : Int) (hx : fitsLit x = true) (r : Constant)
 example : applyOp .Multiply [.intLit (2 ^ 63), .intLit (2 ^ 63)] = .ok (.intLit (2 ^ 126)) := by decide
 example : applyOp .Multiply [.intLit (2 ^ 64), .intLit (2 ^ 64)] = .error .notConst := by decide
 
+/-! ## the float conversions used by constant casts are the IEEE-754 / Rust `as` conversions
+
+`consteval_agrees` compares the evaluator with `Spec.HlslConst`, and both take the float conversions from
+`Model.ConstEvalFloat`.  The theorems below remove that common assumption: the model's `round` (integer → float,
+binary64 → binary32) is the correctly rounded result in the sense of IEEE 754 round-to-nearest-ties-to-even
+(`Spec.Dec2Bin.IsNearestEven`, the same statement property C10 proves for decimal literals), widening is exact, and
+float → integer truncates toward zero and saturates. -/
+
+open RsslVerif.Model.ConstEvalFloat in
+/-- **Round to nearest, ties to even.**  For every binary format with at least one stored significand bit and two
+    exponent bits (binary32 and binary64 are the instances used), every magnitude `m · 2^e` (`m > 0`, any `e`):
+    the bit pattern `round f false m e` is the one IEEE 754 prescribes for the exact rational `m · 2^e` — no
+    representable value is nearer, a tie goes to the even significand, subnormals are gradual, values at or above
+    `2^(emax+1)` after rounding become `+∞`; and a negative value is its magnitude's pattern plus the sign bit. -/
+theorem float_round_nearest_even (f : Fmt) (hp : 1 ≤ f.mant) (he : 2 ≤ f.exp) (m : Nat) (e : Int) (hm : 0 < m) :
+    RsslVerif.Spec.Dec2Bin.IsNearestEven (RsslVerif.Lemmas.ConstEvalFloat.toSpec f)
+      (RsslVerif.Lemmas.ConstEvalFloat.num m e) (RsslVerif.Lemmas.ConstEvalFloat.den e) (round f false m e) ∧
+    round f true m e = f.signBit + round f false m e :=
+  ⟨RsslVerif.Lemmas.ConstEvalFloat.round_isNearestEven f hp he m e hm, RsslVerif.Lemmas.ConstEvalFloat.round_neg f hp m e⟩
+
+open RsslVerif.Model.ConstEvalFloat in
+/-- **`(float)z`, `(double)z` for an integer constant** (`z as f32` / `z as f64`): the correctly rounded value of
+    `|z|`, with the sign of `z`; zero gives `+0`. -/
+theorem int_to_float_nearest_even (f : Fmt) (hp : 1 ≤ f.mant) (he : 2 ≤ f.exp) (z : Int) :
+    (0 < z → RsslVerif.Spec.Dec2Bin.IsNearestEven (RsslVerif.Lemmas.ConstEvalFloat.toSpec f) z.natAbs 1 (ofInt f z)) ∧
+    (z < 0 → ofInt f z = f.signBit + ofInt f (-z)) ∧ ofInt f 0 = 0 := by
+  refine ⟨RsslVerif.Lemmas.ConstEvalFloat.ofInt_isNearestEven f hp he z, ?_, ?_⟩
+  · intro hz
+    rw [RsslVerif.Lemmas.ConstEvalFloat.ofInt_eq f hp, RsslVerif.Lemmas.ConstEvalFloat.ofInt_eq f hp]
+    have h1 : ¬ (-z < 0) := by omega
+    have h2 : ¬ (0 < z) := by omega
+    simp [hz, h2]
+  · rw [RsslVerif.Lemmas.ConstEvalFloat.ofInt_eq f hp]; simp [RsslVerif.Spec.Dec2Bin.nearestRat]
+
+open RsslVerif.Model.ConstEvalFloat in
+/-- **`(float)d` for a finite double constant** (and any finite float → float conversion): the sign is kept and the
+    magnitude `m · 2^e` is correctly rounded to the target format (overflow to infinity, underflow to subnormals/zero);
+    infinities are kept. -/
+theorem float_to_float_nearest_even (src dst : Fmt) (hp : 1 ≤ dst.mant) (he : 2 ≤ dst.exp) (bits : Nat) (n : Bool) (m : Nat) (e : Int)
+    (hd : decode src bits = .fin n m e) :
+    convert src dst bits = (if n then dst.signBit else 0) + round dst false m e ∧
+    (0 < m → RsslVerif.Spec.Dec2Bin.IsNearestEven (RsslVerif.Lemmas.ConstEvalFloat.toSpec dst)
+      (RsslVerif.Lemmas.ConstEvalFloat.num m e) (RsslVerif.Lemmas.ConstEvalFloat.den e) (round dst false m e)) := by
+  refine ⟨?_, RsslVerif.Lemmas.ConstEvalFloat.round_isNearestEven dst hp he m e⟩
+  rw [RsslVerif.Lemmas.ConstEvalFloat.convert_fin src dst hp bits n m e hd,
+    RsslVerif.Lemmas.ConstEvalFloat.round_eq_nearestRat dst hp]
+  simp
+
+open RsslVerif.Model.ConstEvalFloat in
+/-- the link to property C10: on every non-negative finite double the model's `(float)d` is `Spec.Dec2Bin.narrow32`,
+    the narrowing C10 proves correct for `f`-suffixed literals — constants and literals are rounded by one definition -/
+theorem float_narrowing_is_c10_narrow32 (bits : Nat) (h : bits < RsslVerif.Spec.Dec2Bin.binary64.infBits) :
+    convert f64 f32 bits = RsslVerif.Spec.Dec2Bin.narrow32 bits :=
+  RsslVerif.Lemmas.ConstEvalFloat.convert_f64_f32_eq_narrow32 bits h
+
+open RsslVerif.Model.ConstEvalFloat in
+/-- **`(double)f` for a finite float constant loses nothing**: the binary64 pattern encodes a significand/exponent
+    pair of exactly the same value (both sides counted in units of `2^-1074`), with the same sign. -/
+theorem float_widen_exact (bits : Nat) (n : Bool) (m : Nat) (e : Int) (hd : decode f32 bits = .fin n m e) :
+    ∃ (m' : Nat) (q' : Int), -1074 ≤ q' ∧ m' ≤ 2 ^ 53 ∧
+      m' * 2 ^ (q' + 1074).toNat = m * 2 ^ (e + 1074).toNat ∧
+      convert f32 f64 bits = (if n then f64.signBit else 0) + RsslVerif.Spec.Dec2Bin.encode RsslVerif.Spec.Dec2Bin.binary64 m' q' :=
+  RsslVerif.Lemmas.ConstEvalFloat.widen_exact bits n m e hd
+
+open RsslVerif.Model.ConstEvalFloat in
+/-- **`(int)x`, `(uint)x` for a float constant** (`v as i32` / `v as u32`): a finite `± m · 2^e` is truncated toward
+    zero (`mag = ⌊m · 2^e⌋`, stated cross-multiplied) and then saturated to the target range; `±∞` saturates; NaN gives 0;
+    the result is always inside the range. -/
+theorem float_to_int_trunc_saturate (lo hi : Int) (h0 : lo ≤ 0) (h1 : 0 ≤ hi) :
+    (∀ (n : Bool) (m : Nat) (e : Int), ∃ mag : Nat,
+        mag * RsslVerif.Lemmas.ConstEvalFloat.den e ≤ RsslVerif.Lemmas.ConstEvalFloat.num m e ∧
+        RsslVerif.Lemmas.ConstEvalFloat.num m e < (mag + 1) * RsslVerif.Lemmas.ConstEvalFloat.den e ∧
+        toIntSat lo hi (.fin n m e) = RsslVerif.Lemmas.ConstEvalFloat.clamp lo hi (if n then -(mag : Int) else mag)) ∧
+    (∀ n p, toIntSat lo hi (.nan n p) = 0) ∧
+    (∀ n, toIntSat lo hi (.inf n) = if n then lo else hi) ∧
+    (∀ v, lo ≤ toIntSat lo hi v ∧ toIntSat lo hi v ≤ hi) :=
+  ⟨RsslVerif.Lemmas.ConstEvalFloat.toIntSat_fin lo hi, fun _ _ => rfl, fun _ => rfl,
+   RsslVerif.Lemmas.ConstEvalFloat.toIntSat_range lo hi h0 h1⟩
+
+open RsslVerif.Model.ConstEvalFloat in
+/-- non-vacuity: binary32 and binary64 satisfy the format hypotheses; `16777217` is a tie and rounds to the even
+    neighbour `16777216.0f`; `3e9f` saturates to `INT_MAX`; `-1.5f` truncates to `-1`, which saturates to `0u` -/
+example : (1 ≤ f32.mant ∧ 2 ≤ f32.exp) ∧ (1 ≤ f64.mant ∧ 2 ≤ f64.exp) ∧
+    ofInt f32 16777217 = 0x4b800000 ∧ ofInt f32 16777219 = 0x4b800002 ∧
+    toIntSat (-(2 ^ 31)) (2 ^ 31 - 1) (decode f32 0x4f32d05e) = 2147483647 ∧
+    toIntSat (-(2 ^ 31)) (2 ^ 31 - 1) (decode f32 0xbfc00000) = -1 ∧
+    toIntSat 0 (2 ^ 32 - 1) (decode f32 0xbfc00000) = 0 := by decide
+
 /-! ## the positions that demand a constant -/
 
 /-- The reviewed inventory of every call of `evaluate_constexpr` outside `evaluator.rs`
@@ -163,5 +253,197 @@ theorem positions_use_eval :
     (RsslVerif.Gen.EvalSites.evalSites.filter fun s => s.2.2.2.2.2).map (fun s => s.2.1)
       = ["parse_rootdefinition_enum"] := by
   decide
+
+/-! ## what a position does with the evaluated constant: the boundary between untyped literals and typed values
+
+`Model.ConstPos` reads the conversions and guards of every site from `Gen.PosTable` (re-extracted on every run from
+`Constant::to_uint64` / `to_f32`, `parse_declarator`, `add_stage`, `extract_uint32`, `parse_expr_as_u32`,
+`parse_statement_attribute`, `parse_statement`, `parse_and_evaluate_constant_expression`, `parse_rootdefinition_enum`,
+`end_enum`). -/
+
+open RsslVerif.Model.ConstPos RsslVerif.Lemmas.ConstPos RsslVerif.Gen.PosTable
+
+/-- tie to the source: the reviewed reading of the five count-taking sites.  Array sizes unwrap an enum, refuse 0 and
+    take 64 bits; `numthreads`, unsigned pipeline / sampler properties and `bind_group` / `vk::binding` take 32 bits
+    (0 allowed, enums not unwrapped); `[unroll(n)]` takes 64 bits; `WriteMask` 8 bits. -/
+theorem position_rules_as_reviewed :
+    arraySize = ⟨true, true, false⟩ ∧ numthreads = ⟨false, false, true⟩ ∧ pipelineUint = ⟨false, false, true⟩ ∧
+    exprAsU32 = ⟨false, false, true⟩ ∧ unroll = ⟨false, false, false⟩ ∧ writeMaskMax = 255 := by decide
+
+/-- **Counts (array sizes, `numthreads`, `unroll`, `bind_group`, `vk::binding`, unsigned properties).**
+    Whatever the kind of the constant — untyped literal, `int`, `uint`, `bool`, for array sizes also an enum — an
+    accepted count `n` is the integer value of what the specification says the expression evaluates to, and it lies
+    in the range of the place (`[0, 2^64)`, not 0 where 0 is refused, `< 2^32` where 32 bits are required). -/
+theorem position_count_agrees (r : SizeRule) (e : Expr) (hwf : wfE e = true) (n : Int)
+    (h : sizeSite r (eval e) = .count n) :
+    ∃ v, RsslVerif.Spec.HlslConst.eval e = some v ∧ countOf r v = some n ∧ 0 ≤ n ∧ n ≤ 2 ^ 64 - 1 ∧
+      (r.rejectZero = true → n ≠ 0) ∧ (r.max32 = true → n ≤ 2 ^ 32 - 1) := by
+  cases hev : eval e with
+  | error err => cases err <;> simp [hev, sizeSite] at h
+  | ok v =>
+    obtain ⟨h1, h2⟩ := eval_agrees e hwf v hev
+    rw [hev] at h
+    exact ⟨v, h1, sizeSite_sound r v h2 n h⟩
+
+/-- ... and every integer-like value that fits the place is accepted with exactly that count (no kind is refused
+    that has an in-range integer value; out-of-range values, floats and non-constant expressions are refused). -/
+theorem position_count_complete (r : SizeRule) (e : Expr) (hwf : wfE e = true) (v : Constant) (n : Int)
+    (hev : eval e = .ok v) (hc : countOf r v = some n) (h0 : 0 ≤ n) (h1 : n ≤ 2 ^ 64 - 1)
+    (hz : r.rejectZero = true → n ≠ 0) (hm : r.max32 = true → n ≤ 2 ^ 32 - 1) :
+    sizeSite r (eval e) = .count n := by
+  rw [hev]
+  exact sizeSite_complete r v (eval_agrees e hwf v hev).2 n hc h0 h1 hz hm
+
+/-- a rejection is justified by the value: zero, beyond 32 bits, or no integer value in `[0, 2^64)` at all -/
+theorem position_count_rejections (r : SizeRule) (e : Expr) (hwf : wfE e = true) (v : Constant) (hev : eval e = .ok v) :
+    (sizeSite r (eval e) = .zeroSize → countOf r v = some 0) ∧
+    (sizeSite r (eval e) = .outOfRange → ∃ n, countOf r v = some n ∧ 2 ^ 32 - 1 < n) ∧
+    (sizeSite r (eval e) = .notConstant →
+      countOf r v = none ∨ ∃ n, countOf r v = some n ∧ (n < 0 ∨ 2 ^ 64 - 1 < n)) := by
+  rw [hev]
+  exact sizeSite_reject r v (eval_agrees e hwf v hev).2
+
+/-- non-vacuity: `float a[(int)-1]`, `a[0]`, `a[4294967296]`, `a[E0C]` (enum value 5), `numthreads(4294967296, ..)` -/
+example : sizeSite arraySize (eval (.cast (.scalar .Int32) (.lit (.intLit (-1))))) = .notConstant ∧
+    sizeSite arraySize (eval (.lit (.intLit 0))) = .zeroSize ∧
+    sizeSite arraySize (eval (.lit (.intLit 4294967296))) = .count 4294967296 ∧
+    sizeSite arraySize (eval (.enumValue 0 (.int32 5))) = .count 5 ∧
+    sizeSite numthreads (eval (.enumValue 0 (.int32 5))) = .notConstant ∧
+    sizeSite numthreads (eval (.lit (.intLit 4294967296))) = .outOfRange := by decide
+
+/-- **Case labels and const initialisers** keep the evaluated constant: the recorded constant is the specified value. -/
+theorem case_label_value (e : Expr) (hwf : wfE e = true) (c : Constant) (h : caseSite (eval e) = .stored c) :
+    RsslVerif.Spec.HlslConst.eval e = some c := by
+  cases hev : eval e with
+  | error err => cases err <;> simp [hev, caseSite] at h
+  | ok v =>
+    have ha := (eval_agrees e hwf v hev).1
+    rw [hev, caseSite_ok] at h
+    cases h
+    exact ha
+
+theorem const_initialiser_value (isConst : Bool) (e : Expr) (hwf : wfE e = true) (c : Constant)
+    (h : constInitSite isConst (eval e) = .stored c) :
+    isConst = true ∧ RsslVerif.Spec.HlslConst.eval e = some c := by
+  unfold constInitSite at h
+  cases isConst with
+  | false => simp [constInitNeedsConst] at h
+  | true =>
+    simp only [constInitNeedsConst, Bool.not_true, Bool.and_false] at h
+    cases hev : eval e with
+    | error err => cases err <;> simp [hev] at h
+    | ok v =>
+      have ha := (eval_agrees e hwf v hev).1
+      simp [hev] at h
+      cases h
+      exact ⟨rfl, ha⟩
+
+/-- **Template value arguments** are bound to the specified value of the argument expression, kind included: `bool`
+    and integer kinds only. -/
+theorem template_argument_value (e : Expr) (hwf : wfE e = true) (c : Constant) (h : templateSite (eval e) = .stored c) :
+    RsslVerif.Spec.HlslConst.eval e = some c ∧
+    (c.kind = .Bool ∨ c.kind = .IntLiteral ∨ c.kind = .Int32 ∨ c.kind = .UInt32 ∨ c.kind = .Int64 ∨ c.kind = .UInt64) := by
+  cases hev : eval e with
+  | error err => cases err <;> simp [hev, templateSite] at h
+  | ok v =>
+    have ha := (eval_agrees e hwf v hev).1
+    rw [hev, templateSite_ok] at h
+    split at h
+    · rename_i hk
+      cases h
+      exact ⟨ha, hk⟩
+    · cases h
+
+/-- **... but not converted to the declared parameter type** — the full statement "the parameter has the value HLSL
+    defines" is *false* on the pinned source; witnesses (replayed on the real compiler as `C13.pos template -1` and
+    `C13.pos template_bool 2`, known finding): `template<uint N>` instantiated with `-1` binds the literal `-1` where
+    the conversion to `uint` gives `4294967295`; `template<bool B>` instantiated with `2` binds `2`, not `true`. -/
+theorem template_argument_not_converted :
+    templateSite (eval (.lit (.intLit (-1)))) = .stored (.intLit (-1)) ∧
+    RsslVerif.Spec.HlslConst.castScalar .UInt32 (.intLit (-1)) = some (.uint32 4294967295) ∧
+    templateSite (eval (.lit (.intLit 2))) = .stored (.intLit 2) ∧
+    RsslVerif.Spec.HlslConst.castScalar .Bool (.intLit 2) = some (.bool true) :=
+  templateSite_does_not_convert
+
+/-- **Float-valued properties (`MinLOD`, `MaxLOD`)**: an accepted value is the constant converted to `float` by the
+    HLSL rules (32-bit kinds; 64-bit integer constants do not arise from source). -/
+theorem lod_property_value_partial (e : Expr) (hwf : wfE e = true) (b : Nat) (h : lodSite (eval e) = .lod b) :
+    ∃ v, RsslVerif.Spec.HlslConst.eval e = some v ∧
+      (v.kind ≠ .Int64 ∧ v.kind ≠ .UInt64 → RsslVerif.Spec.HlslConst.castScalar .Float32 v = some (.float32 b)) := by
+  cases hev : eval e with
+  | error err => cases err <;> simp [hev, lodSite] at h
+  | ok v =>
+    simp only [hev, lodSite] at h
+    cases ht : toF32 v with
+    | none => simp [ht] at h
+    | some b' =>
+      simp only [ht] at h
+      cases h
+      exact ⟨v, (eval_agrees e hwf v hev).1, fun h64 => toF32_sound v h64 b ht⟩
+
+/-- what is missing from `lod_property_value_partial` is completeness, and it is *false* on the pinned source
+    (known finding, replayed as `C13.pos minlod 0.5` and `C13.pos minlod (int)-1`): an untyped float literal and
+    a negative `int` are refused although they convert to `float`. -/
+theorem lod_property_refuses_valid_values (bits : Nat) (v : Int) (hv : v < 0) :
+    lodSite (.ok (.floatLit bits)) = .notConstant ∧ lodSite (.ok (.int32 v)) = .notConstant ∧
+    (RsslVerif.Spec.HlslConst.castScalar .Float32 (.floatLit bits)).isSome = true ∧
+    (RsslVerif.Spec.HlslConst.castScalar .Float32 (.int32 v)).isSome = true := by
+  have a := toF32_refuses_float_literal bits
+  have b := toF32_refuses_negative_int v hv
+  simp [lodSite, a.1, b.1, a.2, b.2]
+
+/-! ## enum definitions -/
+
+/-- **Enum values have C semantics, and the underlying type is deduced from the range.**  For every list of
+    enumerators (any length; initialisers are arbitrary well-formed trees, possibly built from earlier enumerators,
+    which the type checker inlines as literals): if the definition is accepted with underlying type `u` and values
+    `out`, there are integers `vs` with `EnumSeq none ms vs` — an initialiser gives the value the specification
+    defines for it (an enum-typed one through its underlying type), the first enumerator without initialiser is 0,
+    any other is its predecessor plus one — such that `out` is `vs` represented in `u` without wrap-around, and `u`
+    is `int` exactly when 0 and every value fit `int`, otherwise `uint` (and then they fit `uint`). -/
+theorem enum_values_c_semantics (ms : List Member) (hw : membersWf ms = true) (u : Scalar) (out : List Constant)
+    (h : defineEnum ms = .ok (u, out)) :
+    ∃ vs : List Int, EnumSeq none ms vs ∧ out = vs.map (mk u) ∧
+      ((u = .Int32 ∧ AllIn (-(2 ^ 31)) (2 ^ 31 - 1) vs) ∨
+       (u = .UInt32 ∧ ¬ AllIn (-(2 ^ 31)) (2 ^ 31 - 1) vs ∧ AllIn 0 (2 ^ 32 - 1) vs)) :=
+  defineEnum_spec ms hw u out h
+
+/-- the range rejection (`enum range .. can not fit in any type`) happens only when the C values fit neither `int`
+    nor `uint` -/
+theorem enum_rejected_only_out_of_range (ms : List Member) (hw : membersWf ms = true) (lo hi : Int)
+    (h : defineEnum ms = .error (.cannotDeduce lo hi)) :
+    ∃ vs : List Int, EnumSeq none ms vs ∧ ¬ AllIn (-(2 ^ 31)) (2 ^ 31 - 1) vs ∧ ¬ AllIn 0 (2 ^ 32 - 1) vs :=
+  defineEnum_cannotDeduce ms hw lo hi h
+
+/-- the overflow rejection (`enum value overflows the type of the previous value`) is raised only when the previous
+    enumerator already has the largest value of its own type: `2^127-1` for an untyped literal, `INT_MAX`, `UINT_MAX` -/
+theorem enum_overflow_only_at_type_max (i j : Nat) (l : Constant) (h : nextValue i l = .error (.overflow j)) :
+    j = i ∧ ∃ v, (l = .intLit v ∧ 2 ^ 127 - 1 ≤ v) ∨ (l = .int32 v ∧ 2 ^ 31 - 1 ≤ v) ∨ (l = .uint32 v ∧ 2 ^ 32 - 1 ≤ v) :=
+  nextValue_overflow h
+
+/-- **An enum definition never panics**: not when the successor of `INT_MAX` / `UINT_MAX` / the largest literal is
+    needed (that is `EnumValueOverflow`), not on a `bool` enumerator, not in the range computation or the conversion
+    to the underlying type.  Hypotheses (`membersOk`, executable, evaluated by the model on every definition of the
+    correspondence run): the initialisers satisfy the hypotheses of `consteval_no_panic`, and an initialiser of
+    integer / enum type evaluates, if at all, to an integer-like constant. -/
+theorem enum_no_panic (ms : List Member) (hok : membersOk ms = true) (msg : String) :
+    defineEnum ms ≠ .error (.panic msg) :=
+  defineEnum_noPanic ms hok msg
+
+/-- non-vacuity: `enum { A, B, C = 10, D, E = A + 2, F }` (the reference to `A` is the literal the type checker
+    inlines) has the values 0 1 10 11 2 3 in `int`; `enum { A = 2147483647, B }` continues in `uint`;
+    `enum { A = (int)2147483647, B }` is an overflow error, `enum { A = -1, B = 4294967295u }` a range error;
+    the hypotheses hold for them -/
+example :
+    defineEnum [none, none, some (.scalar .IntLiteral, .lit (.intLit 10)), none,
+                some (.scalar .Int32, .op .Add (.cons (.lit (.int32 0)) (.cons (.cast (.scalar .Int32) (.lit (.intLit 2))) .nil))), none]
+      = .ok (.Int32, [.int32 0, .int32 1, .int32 10, .int32 11, .int32 2, .int32 3]) ∧
+    defineEnum [some (.scalar .IntLiteral, .lit (.intLit 2147483647)), none]
+      = .ok (.UInt32, [.uint32 2147483647, .uint32 2147483648]) ∧
+    defineEnum [some (.scalar .Int32, .cast (.scalar .Int32) (.lit (.intLit 2147483647))), none] = .error (.overflow 1) ∧
+    defineEnum [some (.scalar .IntLiteral, .lit (.intLit (-1))), some (.scalar .UInt32, .lit (.uint32 4294967295))]
+      = .error (.cannotDeduce (-1) 4294967295) ∧
+    membersOk [some (.scalar .Int32, .cast (.scalar .Int32) (.lit (.intLit 2147483647))), none] = true ∧
+    membersWf [some (.scalar .IntLiteral, .lit (.intLit 2147483647)), none] = true := by decide
 
 end RsslVerif.Thm.C13
